@@ -63,7 +63,7 @@ CHECKS = {
           "independent); a call binds its arguments in a fresh environment and returns the caller's untouched. The implementation is tied to the "
           "interpreter by differential execution of type-directed generated programs (all operand type pairs, nesting of control flow, call graphs, "
           "recursion, array copies, bounds and arithmetic errors), comparing echoed output and the runtime error raised. Whole-program type soundness "
-          "of the interpreter is not yet proved (operator level only).", "DESIGN.md §6 C07"),
+          "is proved too: a class-free program accepted by the reference checker never reaches an undefined operation, for every fuel.", "DESIGN.md §6 C07"),
    note="Trusted: Coq kernel; extraction; OCaml float instance (IEEE double, printf %g/%.1f); generator renders one tree twice; drv_prog. Results the "
         "documentation does not fix (long overflow, float->integer out of range) are flagged by the interpreter and skipped.",
    technique="Coq proof (case analysis over the value universe) + extraction-based differential testing of generated programs"),
@@ -113,7 +113,7 @@ CHECKS = {
    level=("proof", "Coq theorems (axiom-free) on the reference interpreter: int arithmetic of any two in-range operands yields an in-range int; long "
           "arithmetic yields an in-range long or is flagged as outside the documentation; x % -1 = 0 for every x including the most negative long; "
           "division and modulo by zero are always the documented runtime errors; an element is produced only for an index inside the array; every "
-          "well-typed operator application is a value or a documented error, never stuck. Memory safety, teardown and exception shape are run-time "
+          "well-typed operator application is a value or a documented error, and a whole class-free program accepted by the reference checker never gets stuck (for every fuel). Memory safety, teardown and exception shape are run-time "
           "behaviour the model cannot exhibit: they are observed (not proved) by running an edge corpus (every pair of extreme int/long operands under "
           "every operator, extreme indices, out-of-range literals/sizes/conversions, empty arrays, recursion) and generated programs with extreme "
           "literals on an ASan+UBSan build, through the harness and the real CLI, and comparing outcome with the interpreter (partial).", "DESIGN.md §6 C12"),
@@ -153,8 +153,8 @@ CHECKS = {
  "C16": dict(
    level=("proof", "Coq theorems (axiom-free) on the reference checker for the classical core: it is compositional - a block, a statement list, a branch, a loop "
           "body or header is accepted only if every part is accepted in the environment of its position - and at every leaf a final variable is never a legal "
-          "target (statement, nested assignment expression, postfix) and an undeclared name never typeable; with the operator soundness theorems of C07 the "
-          "type rules are the documented ones. The analyser is tied to the checker by differential acceptance on valid programs with one rule-directed edit at "
+          "target (statement, nested assignment expression, postfix) and an undeclared name never typeable; and the rules suffice: a class-free program the checker "
+          "accepts never reaches an undefined operation (type soundness, by invariants over environments, for every fuel). The analyser is tied to the checker by differential acceptance on valid programs with one rule-directed edit at "
           "a random position (type of any expression slot, variable swaps, final, declared/return types incl. void, return shape, repeated or moved "
           "declarations, void calls used six ways, finals written six ways). The class-related rules (final fields, access, static/abstract, this/super, "
           "null, @quantum/@shots, class compatibility) are not in the Coq checker: they are checked against the rule text by violating/repaired program "
